@@ -116,8 +116,18 @@ def _flatten_targets(t: ast.AST) -> Iterator[ast.AST]:
         yield t
 
 
+_LSD_CACHE: dict[int, dict] = {}
+
+
 def local_single_defs(f: FuncInfo) -> dict[str, ast.AST]:
     """Locals assigned exactly once by a plain `name = expr` (for expanding boolean temporaries)."""
+    k = id(f.node)
+    if k not in _LSD_CACHE:
+        _LSD_CACHE[k] = _local_single_defs(f)
+    return _LSD_CACHE[k]
+
+
+def _local_single_defs(f: FuncInfo) -> dict[str, ast.AST]:
     counts: dict[str, int] = {}
     vals: dict[str, ast.AST] = {}
     for n in walk_no_nested(f.node):
